@@ -1185,7 +1185,7 @@ func (sc *pbScenario) finish(id string) {
 	sc.releaseAll()
 	for i, pc := range sc.chans {
 		nontrivial := pc.nconn > 0
-		sc.o.Hist(fmt.Sprintf("conns-per-channel=%d", minInt(pc.nconn, 6)))
+		sc.o.Hist(fmt.Sprintf("conns-per-channel=%d", pbMinInt(pc.nconn, 6)))
 		sc.o.Case("peerbook", fmt.Sprintf("%sc%d", id, i), pc.script, pc.obs, nontrivial, pc.verdict)
 	}
 	sc.o.Sample(map[string]interface{}{"sub": "peerbook", "scenario": id, "operations": sc.desc, "channel0_script": sc.chans[0].script})
@@ -1199,7 +1199,7 @@ func (sc *pbScenario) finish(id string) {
 	sc.mu.Unlock()
 }
 
-func minInt(a, b int) int {
+func pbMinInt(a, b int) int {
 	if a < b {
 		return a
 	}
